@@ -371,37 +371,48 @@ def r3_auto_remove(run, w):
   ok = bool(rets) and all(verdicts) and cfg.dominated_by(cfg.exit.id, {r.id for r in rets})
   run.ob(R3, ar.qualname, "return bool(<removed records>)", "the caller is told whether this "
          "round removed anything (it loops while that is true)", ok, fi=ar.fi)
-  # who calls apply_auto_removes, and how
-  n_calls = 0
+  # who calls apply_auto_removes, and how (private Engine helpers are read in place, so the loop
+  # may live in a helper of apply_user_actions)
+  top = w.fn("engine.Engine.apply_user_actions")
+  special = {"_bring_all_up_to_date", "_apply_one_user_action", "_undo_to_checkpoint"}
+  sel = lambda fi: fi.cls is not None and fi.cls.qualname == "engine.Engine" and \
+      fi.name.startswith("_") and fi.name not in special
+  I = H.InlinedCFG(w, top, exceptional=False, depth=2, select=sel)
+  covered = {f.qualname for f in I.owner.values()}
+  units = [(top, I.cfg, I.calls())]
   for fi in w.repo.all_functions():
-    if not any(isinstance(x, ast.Attribute) and x.attr == "apply_auto_removes"
-               for x in ast.walk(fi.node)):
+    if fi.qualname in covered or not any(isinstance(x, ast.Attribute) and
+                                         x.attr == "apply_auto_removes" for x in ast.walk(fi.node)):
       continue
-    fn = w.fn_of(fi)
-    for (n, c, nm) in fn.calls():
+    f2 = w.fn_of(fi)
+    units.append((f2, f2.cfg, f2.calls()))
+  n_calls = 0
+  for (fn, cfg, calls) in units:
+    fi = fn.fi
+    for (n, c, nm) in calls:
       if not (isinstance(c.func, ast.Attribute) and c.func.attr == "apply_auto_removes"):
         continue
       n_calls += 1
       # the call sits on a cycle of the CFG (it is repeated), and every way round that cycle
       # recalculates before the set is consulted again
-      allrec = {m.id for (m, c2, nm2) in fn.calls() if nm2 == "self._bring_all_up_to_date"}
-      on_cycle = n.id in fn.cfg.reach_after({n.id})
-      recalc = {r for r in allrec if r in fn.cfg.reach_after({n.id}) and
-                n.id in fn.cfg.reach_after({r})}
+      allrec = {m.id for (m, c2, nm2) in calls if nm2 == "self._bring_all_up_to_date"}
+      on_cycle = n.id in cfg.reach_after({n.id})
+      recalc = {r for r in allrec if r in cfg.reach_after({n.id}) and
+                n.id in cfg.reach_after({r})}
       is_loop = on_cycle and bool(recalc) and \
-          n.id not in fn.cfg.reach_after({n.id}, removed=recalc)
+          n.id not in cfg.reach_after({n.id}, removed=recalc)
       run.ob(R3, fi.qualname, "while ...apply_auto_removes(): self._bring_all_up_to_date()",
              "auto-removals are applied round after round, recalculating in between (a removal can "
              "make further records removable), until a round removes nothing", is_loop, fi=fi,
              node=n.stmt)
-      pre = {m.id for (m, c2, nm2) in fn.calls() if nm2 == "self._bring_all_up_to_date"} - recalc
+      pre = allrec - recalc
       run.ob(R3, fi.qualname, "self._bring_all_up_to_date() before the first round",
              "the setAutoRemove formulas have been evaluated when the set is first consulted",
-             bool(pre) and fn.cfg.dominated_by(n.id, pre), fi=fi, node=n.stmt)
-      post = {m.id for (m, c2, nm2) in fn.calls() if endswith(nm2, "out_actions.flush_calc_changes")}
+             bool(pre) and cfg.dominated_by(n.id, pre), fi=fi, node=n.stmt)
+      post = {m.id for (m, c2, nm2) in calls if endswith(nm2, "out_actions.flush_calc_changes")}
       run.ob(R3, fi.qualname, "loop before out_actions.flush_calc_changes()",
              "the removals are part of the bundle being returned",
-             bool(post) and all(fn.cfg.dominated_by(p, {n.id}) for p in post), fi=fi, node=n.stmt)
+             bool(post) and all(cfg.dominated_by(p, {n.id}) for p in post), fi=fi, node=n.stmt)
   if n_calls == 0:
     raise AnalysisError("apply_auto_removes is never called")
 
